@@ -9,7 +9,9 @@
        other modes use (the pinned emitter iterated the first collection reached
        and ignored the rest of the path);
      - the header's `if len(path) == 0 { return }` is emitted for struct roots
-       only (the pinned header also returned for root maps).
+       only (the pinned header also returned for root maps);
+     - the map loop ranges over key and value and hands the ranged value over
+       (the pinned loop looked the key up again, which misses NaN keys).
 
    The iterator is a script: whether it wants the key in round i and the control
    value it answers in round i.  The outcome is the trace of the calls made on the
@@ -31,7 +33,7 @@ Record script := { wants : nat -> bool; ctls : nat -> ctl }.
 Inductive event :=
 | ERequireKey (ans : bool)
 | ESetKey (text : string) (ins : string)      (* l.SetKey(buf, &inspector.StaticInspector{}) with *buf = text *)
-| ESetVal (v : val) (ins : string)            (* the value handed over: &s[k] is VPtr (Some e), m[k] is e *)
+| ESetVal (v : val) (ins : string)            (* the value handed over: &s[k] is VPtr (Some e), a map value is e *)
 | EIterate (c : ctl).
 
 Definition trace := list event.
@@ -104,15 +106,9 @@ Fixpoint slice_items (i : nat) (es : list val) : list (ktext * val) :=
   | e :: r => (KT (Z_to_string (Z.of_nat i)), VPtr (Some e)) :: slice_items (S i) r
   end.
 
-(* maps: the value handed over is m[k], a second lookup with the key `range` produced: the
-   entry itself for pointer keys (same pointer) and for every key that is == to itself; the
-   zero value for a NaN key (never found) *)
-Definition handed (kn vn : node) (all : list (val * val)) (kv : val * val) : val :=
-  if n_ptr kn then snd kv
-  else match map_find all (fst kv) with Some x => x | None => zero_val vn end.
-
-Definition map_items (kn vn : node) (all order : list (val * val)) : list (ktext * val) :=
-  map (fun kv => (render_key kn (fst kv), handed kn vn all kv)) order.
+(* maps: `for k, kv := range m`, the ranged value is handed over *)
+Definition map_items (kn : node) (order : list (val * val)) : list (ktext * val) :=
+  map (fun kv => (render_key kn (fst kv), snd kv)) order.
 
 Definition leval (c : cur) : val + pkind :=
   match c with CVal v => inl v | CNil => inr PNilDeref | CPoison => inr PNilDeref end.
@@ -168,7 +164,7 @@ Fixpoint loop (n : node) (c : cur) (depth : nat) (path : list string) {struct n}
             (* for k := range m { ... }; return *)
             match leval c with
             | inr k => Panic k
-            | inl (VMap _ kvs) => finish_rounds (rounds sc (elem_ins vn) (map_items kn vn kvs (ord kvs)) 0)
+            | inl (VMap _ kvs) => finish_rounds (rounds sc (elem_ins vn) (map_items kn (ord kvs)) 0)
             | inl _ => Panic PTypeAssert
             end
           else
